@@ -206,7 +206,11 @@ func (vc *VC) loopModifies(li *loopInfo) (heaps map[string]bool, ghosts map[stri
 				var fcs []*FuncContract
 				if fc != nil && len(fc.Dispatch) > 0 {
 					for _, d := range fc.Dispatch {
-						if f := vc.w.fnByKey[fc.Pkg+"::"+d]; f != nil {
+						key := fc.Pkg + "::" + d
+						if strings.Contains(d, "::") {
+							key = d
+						}
+						if f := vc.w.fnByKey[key]; f != nil {
 							fcs = append(fcs, vc.w.contractFor(f))
 						} else {
 							fcs = append(fcs, nil)
@@ -234,19 +238,31 @@ func (vc *VC) loopModifies(li *loopInfo) (heaps map[string]bool, ghosts map[stri
 			}
 		}
 	}
-	// ghost statements bound to calls in the body
+	// ghost statements bound (by call hints) to the calls that occur in the body
 	if vc.fc != nil {
-		for _, h := range vc.fc.Calls {
-			for _, c := range append(append([]*Clause{}, h.Before...), h.After...) {
-				if c.Kind == "ghost" {
-					name := c.Text
-					for i, ch := range name {
-						if ch == '=' || ch == '[' || ch == ' ' {
-							name = name[:i]
-							break
+		for _, bi := range idxs {
+			for _, in := range vc.fn.Blocks[bi].Instrs {
+				x, ok := in.(*ssa.Call)
+				if !ok {
+					continue
+				}
+				if _, isB := x.Common().Value.(*ssa.Builtin); isB {
+					continue
+				}
+				name := calleeName(x.Common())
+				for _, h := range vc.matchCallHints(name, vc.callOrdinal(x, name)) {
+					for _, c := range append(append([]*Clause{}, h.Before...), h.After...) {
+						if c.Kind == "ghost" {
+							gname := c.Text
+							for i, ch := range gname {
+								if ch == '=' || ch == '[' || ch == ' ' {
+									gname = gname[:i]
+									break
+								}
+							}
+							ghosts[gname] = true
 						}
 					}
-					ghosts[name] = true
 				}
 			}
 		}
